@@ -2,7 +2,7 @@
    regenerated from /repo: the eight content mutators of C10 keep the lock
    discipline on every path, and the lock bookkeeping field is stored only
    between Mutex.Lock and Mutex.Unlock. *)
-From Stackage Require Import Base Guard GuardLock GeneratedIR.
+From Stackage Require Import Base Guard GuardLock GeneratedIR GuardProps.
 
 Definition lock_mutators : list bytes :=
   map B ["Push"; "Pop"; "Insert"; "Remove"; "Replace"; "Swap"; "Reverse"; "Reset"]%string.
@@ -29,6 +29,26 @@ Lemma lockset_static :
 Proof.
   unfold lockset_check. intros H. apply andb_true_iff in H as [H _]. apply andb_true_iff in H as [H1 H2].
   rewrite forallb_forall in H2. intros e He Hm. specialize (H2 e He). rewrite Hm in H2. cbn in H2.
+  exact (lock_entry_sound _ _ _ H1 _ H2).
+Qed.
+
+(* the same for EVERY exported method of Stack, *Stack, Condition, *Condition,
+   with one exception: Stack.Defrag, whose worker truncates the slice header
+   after implode has released the lock (not one of the calls C10 names; see
+   DESIGN.md) *)
+Definition lock_exceptions : list (N * bytes) := [(rc_Stack, B "Defrag")].
+
+Definition lockset_all_check : bool :=
+  lock_post_fixpoint ir_table env_init U_lock &&
+  forallb (fun e => negb (is_inst_class e) || named lock_exceptions e || lock_entry_accepted ir_table U_lock e) ir_entries.
+
+Lemma lockset_all_static :
+  lockset_all_check = true ->
+  forall e, In e ir_entries -> is_inst_class e = true -> named lock_exceptions e = false ->
+            lock_entry_ok ir_table env_init e.
+Proof.
+  unfold lockset_all_check. intros H. apply andb_true_iff in H as [H1 H2].
+  rewrite forallb_forall in H2. intros e He Hc Hn. specialize (H2 e He). rewrite Hc, Hn in H2. cbn in H2.
   exact (lock_entry_sound _ _ _ H1 _ H2).
 Qed.
 
